@@ -178,6 +178,14 @@ func vfArm(sess *vfSession, upload bool, ev vfEvent, fire func()) *vfTracker {
 	}
 	sess.c2s.onMsg = hook("c2s")
 	sess.s2c.onMsg = hook("s2c")
+	if sess.tunC2S != nil {
+		// a tunnel session: the protocol lines travel on the client's tapped tunnel connection and are numbered there; the
+		// in-band links only carry the trigger (and whatever else the shell prints)
+		sess.c2s.onMsg = nil
+		sess.s2c.onMsg = nil
+		sess.tunC2S.onMsg = hook("c2s")
+		sess.tunS2C.onMsg = hook("s2c")
+	}
 	return tk
 }
 
@@ -191,6 +199,19 @@ func vfScenarios() []vfScenario {
 		{Name: "upload-single-v2-binary", Cfg: vfPairCfg{Upload: true, Protocol: 2, Binary: true, Escape: true, Bufsize: 4096, Timeout: 3}, Files: 1, Size: 150000},
 		{Name: "download-single-v1", Cfg: vfPairCfg{Upload: false, Protocol: 1, Timeout: 3}, Files: 2, Size: 20000, Pre: "collide"},
 	}
+}
+
+// vfTunnelScenarios: members of the family run over the TCP tunnel (the client has a connector): the protocol lines then travel on
+// the tunnel connection, where stop / fail lines must get through as well.
+func vfTunnelScenarios() []vfScenario {
+	var out []vfScenario
+	for _, i := range []int{0, 1} {
+		sc := vfScenarios()[i]
+		sc.Name += "+tunnel"
+		sc.Sess.Tunnel = true
+		out = append(out, sc)
+	}
+	return out
 }
 
 // vfDryRun runs the scenario fault-free and returns the number of messages per direction.
@@ -209,6 +230,12 @@ func vfDryRun(sc vfScenario) (c2s, s2c int, msg string) {
 	run.finish(60 * time.Second)
 	if !run.serverSuccess() || !run.clientSuccess() {
 		return 0, 0, "fault-free dry run of scenario " + sc.Name + " failed: " + run.describe()
+	}
+	if sess.tunC2S != nil {
+		if n := len(sess.tunC2S.messages()); n > 0 {
+			return n, len(sess.tunS2C.messages()), ""
+		}
+		return 0, 0, "fault-free dry run of tunnel scenario " + sc.Name + " did not use the tunnel"
 	}
 	return len(sess.c2s.messages()), len(sess.s2c.messages()), ""
 }
